@@ -147,9 +147,25 @@ func runC08(e *Env) {
 					e.Fail("write-count", "write-count", "Write(%d) returned %d, nil", o.n, k)
 				}
 			} else {
-				if o.n > 4096 && e.Bool() {
+				switch {
+				case o.n >= 80 && !localClose && e.Chance(1, 4):
+					// (not together with a concurrent Close: Close releases the output buffer under a
+					// writer that is between Append's activity check and its buffer update - the
+					// documented unsynchronised buffer, DESIGN.md 6.5)
+					// the payload in 33-80 pieces, each a node of its own (one flush over many nodes)
+					pieces := e.Pick(33, 40, 64, 65, 80)
+					off := 0
+					for k := 0; k < pieces; k++ {
+						m := (o.n - off) / (pieces - k)
+						lb := NewLinkBuffer()
+						buf, _ := lb.Malloc(m)
+						copy(buf, data[off:off+m])
+						off += m
+						conn.Append(lb)
+					}
+				case o.n > 4096 && e.Bool():
 					conn.WriteBinary(data)
-				} else {
+				default:
 					buf, _ := conn.Malloc(o.n)
 					copy(buf, data)
 				}
@@ -385,7 +401,30 @@ func runC04(e *Env) {
 			}
 			d := streamBytes(stream, sent, n)
 			var err error
-			switch e.Intn(7) {
+			switch e.Intn(8) {
+			case 7:
+				// one flush over many nodes (more than the poller's or the flusher's vector holds at once):
+				// the frame handed over in 33-80 pieces, each a buffer of its own
+				pieces := e.Pick(33, 40, 64, 65, 80)
+				off := 0
+				for k := 0; k < pieces && off < n; k++ {
+					m := (n - off) / (pieces - k)
+					if m == 0 {
+						m = 1
+					}
+					lb := NewLinkBuffer()
+					buf, _ := lb.Malloc(m)
+					copy(buf, d[off:off+m])
+					off += m
+					if e.Chance(1, 4) {
+						lb.Flush()
+					}
+					sender.Append(lb)
+				}
+				if off < n {
+					sender.WriteBinary(d[off:])
+				}
+				err = sender.Flush()
 			case 0:
 				_, err = sender.Write(d)
 			case 1:
